@@ -17,6 +17,15 @@ package wal
 //@     assert [crc-gate] calculatedChecksum == checksum && calculatedChecksum == uf("crc32", uint32, it.readBuf)
 //@ end
 
+// The iterator hands out readDps[0:len(readDps)] of the block just decoded
+// (Next's first branch), so a successfully decoded block must leave exactly
+// its own N datapoints in that slice: no leftover of an earlier, larger block.
+//@ func (*DPWalIterator).decodeWALBlock
+//@   props C10
+//@   requires it != nil
+//@   ensures [exactly-the-blocks-datapoints] implies(result == nil, len(it.readDps) == int(N))
+//@ end
+
 //@ func (*MNameWalIterator).Next
 //@   props C10
 //@   requires it != nil
